@@ -96,10 +96,6 @@ def main(argv):
         for f in fails:
             f['unit'] = name
             f['id'] = obligation_id(name, f)
-            if base and f['fn'] not in base:
-                # never green on the pinned tree: not part of the claim, report as undecided
-                undecided.append('%s: obligation %s fails but %s is not in the green baseline' % (name, f['id'], f['fn']))
-                continue
             violations.append(f)
         for f in mine[:4]:
             samples.append({'obligation': '%s::%s' % (name, f['label']), 'source': '%s:%d' % (f['file'], f['src_line']),
@@ -151,6 +147,9 @@ def main(argv):
             w = wit.get(v['id'], {})
             failing = w.get('failing', [])
             kf = [k for k in known if k.get('status') == 'open' and k.get('property') == prop and k.get('obligation') == v['id']]
+            if kf and not w.get('ran') and units[v['unit']].get('witness_programs'):
+                # the finding is identified by its inputs: without a witness run it cannot be matched
+                kf = []
             rp = os.path.join(replay_dir, re.sub(r'[^A-Za-z0-9_.-]+', '_', v['id']).strip('_') + '.json')
             rec = dict(property=prop, obligation=v['id'], kind=v['kind'], message=v['message'], source=v.get('src'),
                        verifier_output=v.get('rendered', ''), failing_inputs=failing, witnesses_run=w.get('ran', []),
@@ -164,6 +163,7 @@ def main(argv):
                     for k in kf:
                         lines.append('KNOWN-FINDING: property=%s %s [%s]' % (prop, k.get('what', ''), v['id']))
                         known_hits.append(k.get('id', v['id']))
+                    v['_known'] = True
                     continue
                 rec['unlisted_failing_inputs'] = unlisted
                 json.dump(rec, open(rp, 'w'), indent=1)
@@ -176,6 +176,10 @@ def main(argv):
         rc = 2
 
     wall = time.time() - t0
+    # functions whose only failing obligations are listed open known findings are not part of the claim
+    kf_fns = {(v['unit'], v['fn']) for v in violations if v.get('_known')}
+    bad_fns = {(v['unit'], v['fn']) for v in violations if not v.get('_known')}
+    total_fns -= len(kf_fns - bad_fns)
     obligations = total_fns + len([k for k in kani_results if not k.get('bounded')])
     discharged = total_ok + len([k for k in kani_results if not k.get('bounded') and k['status'] == 'ok'])
     discharged -= 0
